@@ -51,8 +51,10 @@ def _mk(nops, nonneg, tiers, timeout, first=None):
                      get_time=clock, speed_estimate_period=30)
         lo = 0 if nonneg else -30
         t0_total = e.mk("total0", -3, 30)
-        ids = [p.add_task("a", total=t0_total), p.add_task("b", start=False, total=e.mk("total1", -3, 30))]
+        t1_total = e.mk("total1", -3, 30)
+        ids = [p.add_task("a", total=t0_total), p.add_task("b", start=False, total=t1_total)]
         ref = {ids[0]: 0, ids[1]: 0}           # reference completed count
+        ref_total = {ids[0]: t0_total, ids[1]: t1_total}
         ok = True
         for step in range(nops):
             kind = first if (first is not None and step == 0) else int(e.mk("op%d" % step, 0, 6))
@@ -73,7 +75,9 @@ def _mk(nops, nonneg, tiers, timeout, first=None):
                 ref[tid] = c
                 advanced = True
             elif kind == 2:
-                p.update(tid, total=e.mk("amt%d" % step, -3, 30))
+                nt = e.mk("amt%d" % step, -3, 30)
+                p.update(tid, total=nt)
+                ref_total[tid] = nt
                 total_changed = True
                 advanced = True
             elif kind == 3:
@@ -86,6 +90,7 @@ def _mk(nops, nonneg, tiers, timeout, first=None):
                 newtotal = e.mk("tot%d" % step, -3, 30)
                 if e.mkbool("settotal%d" % step):
                     p.reset(tid, total=newtotal, completed=c)
+                    ref_total[tid] = newtotal
                 else:
                     p.reset(tid, completed=c)
                 ref[tid] = c
@@ -96,7 +101,7 @@ def _mk(nops, nonneg, tiers, timeout, first=None):
                 p.stop_task(tid)
             # --- assertions after every prefix ---
             for t in p.tasks:
-                ok = sym_and(ok, t.completed == ref[t.id])
+                ok = sym_and(ok, t.completed == ref[t.id], t.total == ref_total[t.id])
                 pct = t.percentage
                 if _truth(t.total == 0):
                     ok = sym_and(ok, pct == 0)
